@@ -66,6 +66,7 @@ class World:
         self.opts = frozenset()
         self.n = 0                    # position in the behaviour (selects API spelling)
         self.pasts = []               # (root_hash, {key: value}) recorded along the way
+        self.dirty = False            # a write failed on this pruning trie: counts no longer the true ones
 
 
 def snapshot(w):
@@ -123,6 +124,7 @@ def step(w, ev):
         elif a == "bset":
             do_write(w.batch, key_of(ev["k"]), val(*ev["v"]), w.n)
         elif a == "failwrite":
+            w.dirty = w.dirty or w.prune      # counts are stale from here on (named deviation of the spec)
             w.db.arm(ev["j"])
             try:
                 do_write(w.t, key_of(ev["k"]), val(*ev["v"]), w.n)
@@ -391,7 +393,7 @@ def check_state(w, st, out, last):
                                                       "after": last["a"] if last else None}))
         try:
             regen = {k: v for k, v in w.t.regenerate_ref_count().items() if v}
-            if regen != rc:
+            if regen != rc and not w.dirty:
                 out.append(("C06", "ref-count-differs-from-regenerate", {}))
         except Exception as exc:  # noqa
             out.append(("C06", "regenerate-raised", {"exc": type(exc).__name__}))
